@@ -2,7 +2,7 @@
    Statements only.  Model: IR/*.v; proofs: IR/Funcs.v.  FInv is the partition invariant of functionBlocks /
    functionEntries / functionNames / ModifyCache.functions_by_block. *)
 From Coq Require Import ZArith List Bool Arith.
-From GR Require Import Base.Result IR.State IR.Modify IR.Edit IR.Funcs.
+From GR Require Import Base.Result Adt.RefCache Adt.RetCache IR.State IR.Modify IR.Edit IR.Funcs IR.CfgClosedInsert IR.FuncsInsert.
 Import ListNotations.
 Open Scope Z_scope.
 
@@ -74,3 +74,33 @@ Proof.
   - cbn. split; [|split; [intros id Hid q []|exact I]]. intros id [<-|[]]. split; [apply Nat.ltb_lt; reflexivity|reflexivity].
   - eexists. split; vm_compute; reflexivity.
 Qed.
+
+(* ===== "code inserted into a block of function F belongs to F, data never does" =====
+   after the steps of insert() between insert_split and the clean-up (insert_body: C05_insert_is_its_steps): when the block is code and
+   belongs to function f, every code block of the patch is in functionBlocks[f] and the cache says f; the patch's data blocks and every
+   other block keep what they had (nothing, for the fresh blocks of a patch); f loses no block.  When the block is data or belongs to no
+   function, the three tables and the cache are untouched. *)
+Theorem C06_inserted_code_belongs_to_the_function :
+  forall s b first last lastk end_block added_ft bi offset repl code p pcfg pprox,
+    let s' := insert_body s b first last lastk end_block added_ft bi offset repl code p pcfg pprox in
+    match (if code then aget b (fbb s) else None) with
+    | Some f =>
+        (forall id, In id (code_ids (p_blocks p)) -> aget id (fbb s') = Some f /\ In id (func_blocks s' f)) /\
+        (forall id, ~ In id (code_ids (p_blocks p)) -> aget id (fbb s') = aget id (fbb s)) /\
+        (forall x, In x (func_blocks s f) -> In x (func_blocks s' f))
+    | None => fbb s' = fbb s /\ fblocks s' = fblocks s /\ fentries s' = fentries s /\ fnames s' = fnames s
+    end.
+Proof. exact insert_body_functions. Qed.
+
+(* non-vacuity: a patch of a code block, a data block (a string between the instructions) and another code block, inserted into a block of
+   function 7: the code blocks 200 and 202 join function 7, the data block 201 joins none *)
+Example C06_inserted_code_example :
+  let s := mk_st [(0%nat, mk_blk KCode (Some 100%nat) 0 2); (1%nat, mk_blk KCode (Some 100%nat) 2 1)]
+                 [(100%nat, mk_ival 0 [144; 144; 195] [])] [(0%nat, [0%nat; 1%nat])]
+                 (RefCache.mk_rc [] []) [] [] [(7%nat, [0%nat; 1%nat])] [(7%nat, [0%nat])] [(7%nat, 50%nat)] [(0%nat, 7%nat); (1%nat, 7%nat)] [] [[]; []; []] [] [[]; []; []; []] None 900 in
+  let p := mk_patch [235; 2; 104; 105; 144] [(200%nat, KCode, 0, 2); (201%nat, KData, 2, 2); (202%nat, KCode, 4, 1)] [] [] [] [] [] [] [] [] in
+  let s' := insert_body s 0 200 202 KCode 1 None 100 2 0 true p [] [] in
+  code_ids (p_blocks p) = [200%nat; 202%nat] /\
+  map (fun id => aget id (fbb s')) [200%nat; 201%nat; 202%nat; 0%nat] = [Some 7%nat; None; Some 7%nat; Some 7%nat] /\
+  func_blocks s' 7 = [0%nat; 1%nat; 200%nat; 202%nat].
+Proof. vm_compute. repeat split. Qed.
